@@ -23,6 +23,8 @@ SPEC = {
     'M': ((3, 3), float, None), 'Q': ((2, 2), float, None), 'v': ((3,), float, None), 'u': ((2,), float, None), 'e': ((1, 3), float, None), 'T': ((2, 1, 3), float, None),
     'i': ((3,), int, (0, 2)), 'j': ((2, 3), int, (-3, 3)), 'n': ((), int, (0, 1)), 'k': ((2,), int, (0, 2)), 'r': ((3,), int, (1, 4)),
     'm': ((2, 3), bool, None), 'q': ((3,), bool, None), 'z': ((3,), complex, None), 'w': ((2, 3), complex, None),
+    # equal-length axes: an axis mix-up is silent (no shape error) only then
+    'F': ((2, 2, 2, 2), float, None), 'K': ((2, 2, 2), float, None), 'h': ((2,), int, (0, 1)),
 }
 class O: pass
 
@@ -94,6 +96,10 @@ COMPOSE = [lambda o: np.sum(o.a * o.b, axis=-1), lambda o: np.stack([o.a[0], o.b
            lambda o: np.take(np.transpose(o.T, (2, 0, 1)), o.k, axis=0)[..., 0], lambda o: np.einsum('ij,j->i', o.a[:, ::-1], np.choose(o.i, [o.b, o.v, o.b * 0])), lambda o: np.linalg.det(o.Q @ o.Q.T + np.diag([1., 1.]) if False else o.Q @ np.transpose(o.Q)),
            lambda o: np.where(o.a > 0, o.a, -o.d) if False else np.sign(o.a) * o.b, lambda o: (o.a @ o.M)[..., np.newaxis] * o.b, lambda o: np.reshape(np.stack([o.a, o.d]), (4, 3))[1:3].sum(0), lambda o: np.diagonal(o.M[::-1]) + np.trace(o.M),
            lambda o: np.broadcast_to(o.c, (2, 3)) * o.a[::-1], lambda o: np.prod(o.a[:, :2], axis=1) / (1. + np.square(o.u)), lambda o: np.searchsorted([0., 1.], o.b)[o.i], lambda o: np.interp(o.b * 2., [0., 1., 3.], [1., -1., 2.]) + o.v]
+COMPOSE += [lambda o: np.einsum('iijj->ij', np.take(o.F, o.h, 3)), lambda o: np.einsum('ijij->ij', np.take(o.F, [1, 0], 0)), lambda o: np.trace(np.diagonal(np.take(o.F, o.h, 1), axis1=0, axis2=1)),
+            lambda o: np.diagonal(np.diagonal(o.F * np.transpose(o.F), axis1=0, axis2=2), axis1=0, axis2=1), lambda o: np.diagonal(np.prod(o.F, 2)), lambda o: np.diagonal(np.sum(o.K[:, np.newaxis] * o.F, 3), axis1=1, axis2=2),
+            lambda o: np.diagonal(np.reshape(o.F, (4, 4))), lambda o: np.einsum('iji->ji', o.K * np.transpose(o.K, (2, 1, 0))), lambda o: np.diagonal(np.choose(o.h, [o.K, -o.K]), axis1=0, axis2=1),
+            lambda o: np.transpose(np.take(o.K, o.h, 1), (2, 0, 1))[::-1], lambda o: np.einsum('ijk,kl->lij', o.K, o.Q), lambda o: np.sum(np.take(o.F, o.h, 2) * o.K[..., np.newaxis], axis=(0, 3))]
 BAD = [lambda o: o.a + o.u, lambda o: np.matmul(o.a, o.u), lambda o: np.concatenate([o.a, o.b], axis=0), lambda o: np.stack([o.a, o.b]), lambda o: np.reshape(o.a, (4, 2)), lambda o: np.einsum('ij,j->i', o.a, o.u), lambda o: np.broadcast_to(o.a, (3, 3)),
        lambda o: np.dot(o.a, o.u), lambda o: np.cross(o.a, o.u) if False else np.maximum(o.a, o.Q), lambda o: o.a[:, :, 0], lambda o: np.transpose(o.a, (0, 0)), lambda o: np.trace(o.b), lambda o: np.linalg.det(o.a), lambda o: np.take(o.a, 0, axis=2), lambda o: o.b @ o.u]
 
